@@ -234,6 +234,7 @@ impl<D: StorageData + Persist> StBackend for B<D> {
 pub struct Reference {
     pub live: BTreeMap<u64, Vec<u8>>,
     pub removed: Vec<u64>,
+    pub removed_sizes: Vec<usize>,
 }
 
 impl Reference {
@@ -241,7 +242,7 @@ impl Reference {
     fn apply(&mut self, t: &[&str], out: &str) {
         let pu = |s: &str| s.parse::<u64>().unwrap_or(0);
         match t {
-            ["new"] => { self.live.clear(); self.removed.clear(); }
+            ["new"] => { self.live.clear(); self.removed.clear(); self.removed_sizes.clear(); }
             ["insert", hx] => {
                 if let Some(i) = out.strip_prefix("ok idx=").and_then(|r| r.split(' ').next()).and_then(|x| x.parse::<u64>().ok()) {
                     self.removed.retain(|x| *x != i);
@@ -266,7 +267,7 @@ impl Reference {
                     v[to..to + n].copy_from_slice(&src);
                 }
             }
-            ["remove", i] => { if self.live.remove(&pu(i)).is_some() { self.removed.push(pu(i)); } }
+            ["remove", i] => { if let Some(v) = self.live.remove(&pu(i)) { self.removed.push(pu(i)); self.removed_sizes.push(v.len()); } }
             ["replace", i, hx] => { if let Some(v) = self.live.get_mut(&pu(i)) { *v = unhex(hx).unwrap(); } }
             ["resize", i, n] => { if let Some(v) = self.live.get_mut(&pu(i)) { v.resize(pu(n) as usize, 0); } }
             _ => {}
@@ -317,7 +318,8 @@ impl StRunner {
             if crash && k >= 1 {
                 outs.push(self.step_file_with_crash_oracle(out, t, line, k));
             } else {
-                outs.push(self.backends[k].step(t));
+                let b = &mut self.backends[k];
+                outs.push(guarded(|| b.step(t)).unwrap_or_else(|p| format!("panic:{}", p.split(' ').take(6).collect::<Vec<_>>().join("_"))));
             }
         }
         let o0 = outs[0].clone();
@@ -349,7 +351,7 @@ impl StRunner {
         if mutating && (self.prop == "C04" || self.prop == "C06") {
             for (i, v) in &self.reference.live {
                 for b in self.backends.iter() {
-                    match b.read(*i) {
+                    match guarded(|| b.read(*i)).unwrap_or_else(|p| Err(format!("panic:{p}"))) {
                         Ok(x) if x == *v => {}
                         other => {
                             out.violation("C04/live-value-differs/Storage", &format!("live value {i} must read back as last written after `{line}` ({})", b.kind()), hex(v), format!("{:?}", other.map(|x| hex(&x))));
@@ -359,7 +361,7 @@ impl StRunner {
                 }
             }
             for i in &self.reference.removed {
-                if let Ok(x) = self.backends[0].read(*i) {
+                if let Ok(Ok(x)) = guarded(|| self.backends[0].read(*i)) {
                     out.violation("C04/removed-value-readable/Storage", &format!("removed value {i} must not be readable after `{line}`"), "err:NotFound".into(), hex(&x));
                 }
             }
@@ -393,7 +395,7 @@ impl StRunner {
                 sn.borrow_mut().push((std::fs::read(&dp).unwrap_or_default(), std::fs::read(&wp).unwrap_or_default(), file, op, pos, bytes.to_vec()));
             })));
         }
-        let o = self.backends[bk].step(t);
+        let o = { let b = &mut self.backends[bk]; guarded(|| b.step(t)).unwrap_or_else(|p| format!("panic:{}", p.split(' ').take(6).collect::<Vec<_>>().join("_"))) };
         agdb::verif::set_fs_hook(None);
         let snaps = Rc::try_unwrap(snaps).ok().unwrap().into_inner();
         if !(t[0] == "reopen") {
@@ -454,7 +456,7 @@ impl StRunner {
 }
 
 /// next generated op given what is live
-pub fn gen_op(rng: &mut Rng, r: &Reference, depth: &Vec<u64>, started: bool) -> String {
+pub fn gen_op(rng: &mut Rng, r: &Reference, depth: &Vec<u64>, started: bool, big: bool) -> String {
     if !started { return "st new".into(); }
     let live: Vec<u64> = r.live.keys().cloned().collect();
     let pick = |rng: &mut Rng| -> u64 {
@@ -463,17 +465,32 @@ pub fn gen_op(rng: &mut Rng, r: &Reference, depth: &Vec<u64>, started: bool) -> 
             match rng.below(3) { 0 => 0, 1 => r.removed.last().cloned().unwrap_or(99), _ => 1000 + rng.below(5) }
         } else { live[rng.below(live.len() as u64) as usize] }
     };
+    let removed_sizes: Vec<usize> = r.removed_sizes.iter().rev().take(4).cloned().collect();
     let size = |rng: &mut Rng| -> usize {
+        if big { return match rng.below(6) { 0 => rng.range(1, 40) as usize, 1 => 4096, _ => rng.range(200, 2000) as usize }; }
+        // space reuse: often ask for exactly (or nearly) the size of something removed recently
+        if !removed_sizes.is_empty() && rng.chance(1, 3) {
+            let z = removed_sizes[rng.below(removed_sizes.len() as u64) as usize];
+            return match rng.below(4) { 0 => z, 1 => z.saturating_sub(16), 2 => z + 16, _ => z };
+        }
         match rng.below(10) { 0 => 0, 1 => 16, 2 => rng.range(15, 17) as usize, 3 => rng.range(30, 80) as usize, _ => rng.range(1, 24) as usize }
     };
-    let c = rng.below(100);
+    let c = if big && !live.is_empty() && rng.chance(1, 2) {
+        // big files: piecewise reads and in-place rewrites across page boundaries
+        [84u64, 86, 40, 30][rng.below(4) as usize]
+    } else { rng.below(100) };
     if c < 24 || live.is_empty() && c < 60 { format!("st insert {}", { let n = size(rng); hex(&rng.bytes(n)) }) }
     else if c < 36 {
         let i = pick(rng);
         let cur = r.live.get(&i).map(|v| v.len()).unwrap_or(4) as u64;
         let off = match rng.below(4) { 0 => cur, 1 => cur + rng.range(1, 20), _ => rng.below(cur + 1) };
         format!("st insert_at {i} {off} {}", { let n = size(rng); hex(&rng.bytes(n)) })
-    } else if c < 46 { format!("st replace {} {}", pick(rng), { let n = size(rng); hex(&rng.bytes(n)) }) }
+    } else if c < 46 {
+        let i = pick(rng);
+        // in big mode mostly rewrite in place with the same length
+        let n = if big && rng.chance(3, 4) { r.live.get(&i).map(|v| v.len()).unwrap_or(8) } else { size(rng) };
+        format!("st replace {i} {}", hex(&rng.bytes(n)))
+    }
     else if c < 56 {
         let i = pick(rng);
         let cur = r.live.get(&i).map(|v| v.len()).unwrap_or(4) as u64;
@@ -490,7 +507,7 @@ pub fn gen_op(rng: &mut Rng, r: &Reference, depth: &Vec<u64>, started: bool) -> 
     } else if c < 78 { format!("st remove {}", pick(rng)) }
     else if c < 81 { "st optimize".into() }
     else if c < 86 { format!("st read {}", pick(rng)) }
-    else if c < 88 { let i = pick(rng); let cur = r.live.get(&i).map(|v| v.len()).unwrap_or(4) as u64; format!("st read_at {i} {} {}", rng.below(cur + 2), rng.below(cur + 2)) }
+    else if c < 88 { let i = pick(rng); let cur = r.live.get(&i).map(|v| v.len()).unwrap_or(4) as u64; let off = rng.below(cur + 2); let n = if big { rng.below(64.min(cur + 2)) } else { rng.below(cur + 2) }; format!("st read_at {i} {off} {n}") }
     else if c < 90 { format!("st size {}", pick(rng)) }
     else if c < 93 { "st begin".into() }
     else if c < 96 { match depth.last() { Some(id) => format!("st commit {}", if rng.chance(1, 10) { id + 1 } else { *id }), None => "st begin".into() } }
@@ -531,11 +548,13 @@ pub fn run(args: &Args) -> Out {
         let (n, maxops) = if args.prop == "C01" { if thorough { (600, 80) } else { (60, 30) } } else if thorough { (3000, 300) } else { (250, 60) };
         for _ in 0..n {
             out.begin_case();
-            let nops = rng.range(5, maxops);
+            let big = args.prop != "C01" && rng.chance(1, 10);
+            let nops = if big { rng.range(40, 90) } else { rng.range(5, maxops) };
+            if big { out.bump("st-case-big-file"); }
             let mut nt = false;
             let mut started = false;
             for _ in 0..nops {
-                let l = gen_op(&mut rng, &runner.reference, &runner.depth, started);
+                let l = gen_op(&mut rng, &runner.reference, &runner.depth, started, big);
                 started = true;
                 let o = runner.step(&mut out, &l);
                 if (l.starts_with("st remove") || l.starts_with("st resize") || l.starts_with("st replace")) && o.starts_with("ok") && runner.reference.live.len() >= 1 { nt = true; }
